@@ -38,6 +38,13 @@ func init() {
 						cs = append(cs, Case{Kind: "binop", P: []int64{int64(op), int64(f)}})
 					}
 				}
+				for _, op := range []byte{h.ADDMOD, h.MULMOD} {
+					for _, f := range []h.Fork{h.Frontier, h.Constantinople, h.Shanghai} {
+						for part := 0; part < 8; part++ {
+							cs = append(cs, Case{Kind: "triop", P: []int64{int64(op), int64(f), int64(part)}})
+						}
+					}
+				}
 			} else {
 				// a rotating slice of the sweep in quick
 				for i, op := range binOpsAll {
@@ -162,6 +169,24 @@ func runC01(c Case, tier string) (res CaseResult) {
 		}
 		res.Evals = int64(n)
 		_ = uint256.NewInt
+	case "triop":
+		op, f, part := byte(c.P[0]), h.Fork(c.P[1]), int(c.P[2])
+		bs := h.BoundaryU256()
+		n := 0
+		for i := part; i < len(bs); i += 8 {
+			for j := 0; j < len(bs); j += 2 {
+				for k := 0; k < len(bs); k += 2 {
+					a := h.NewAsm()
+					a.Push(bs[k]).Push(bs[j]).Push(bs[i]).Op(op).PushU(0).Op(h.MSTORE).PushU(32).PushU(0).Op(h.RETURN)
+					dc := DualCase{World: h.BaseWorld([][]byte{a.Bytes()}), Env: h.EnvSpec{Fork: f},
+						Tx:   h.TxSpec{Entry: h.ECall, From: h.Sender, To: h.ContractAddr(0), Gas: 100000},
+						Desc: fmt.Sprintf("triop %#x fork=%s a=%s b=%s n=%s", op, f, bs[i].Hex(), bs[j].Hex(), bs[k].Hex())}
+					dualCompare(&res, dc, c01Cfgs[:1])
+					n++
+				}
+			}
+		}
+		res.Evals = int64(n)
 	}
 	return
 }
